@@ -18,7 +18,8 @@ Record config := { c_spec : file_spec;
                    c_rot : option (criterion * naming * cleanup);
                    c_utc : bool;                                  (* FileLogWriterBuilder::use_utc *)
                    c_symlink : bool;
-                   c_bg : bool }.                                 (* cleanup in a background thread *)
+                   c_bg : bool;                                   (* cleanup in a background thread *)
+                   c_async : bool }.                              (* WriteMode::AsyncWith: records travel through a channel *)
 
 (* ------------------------------------------------------------------ world *)
 Inductive ecode := EWrite | EFlush | EFormat | ELogFile | ESymlink | EPoison | EWriterSpec.
